@@ -243,54 +243,16 @@ Section P.
     destruct (batches_inv _ _ _ _ _ Hi0 Hb) as [[Hl1 Hd1] Hx].
     assert (Hx' : extends (live _ _ _ s) (live _ _ _ s1)).
     { eapply extends_trans; [exact Hx1|]. eapply extends_trans; [|exact Hx]. apply records_extends. reflexivity. }
-    assert (Hck : forall x,
-             (if Nat.eqb n 0 && c_saving (cfg _ _ _ (live _ _ _ s1))
-              then match save _ _ _ (live _ _ _ s1) with
-                   | Some d => inl (mkSt _ _ _ (live _ _ _ s1) (Some d)) | None => inr ExOther end
-              else inl s1) = x ->
-             (exists e0, x = inr e0) \/
-             (exists s2, x = inl s2 /\ live _ _ _ s2 = live _ _ _ s1 /\ (forall d, disk _ _ _ s2 = Some d -> Inv E0 d))).
-    { intros x Hxx. destruct (Nat.eqb n 0 && _).
-      - unfold save in Hxx. destruct (sch _ _ _ (live _ _ _ s1)); subst x.
-        + right. eexists. split; [reflexivity|]. cbn. split; [reflexivity|]. intros d Hd'. injection Hd' as <-. exact Hl1.
-        + left. eexists; reflexivity.
-      - subst x. right. exists s1. auto. }
-    assert (Hraise : forall e0,
-              match end_session _ (sch _ _ _ (live _ _ _ s1)) with
-              | inr e' => (s1, Some e', [])
-              | inl sc' => (mkSt _ _ _ (set_sch _ _ _ (live _ _ _ s1) sc') (disk _ _ _ s1), Some e0, [])
-              end = (s', e, r) -> InvS E0 s' /\ extends (live _ _ _ s) (live _ _ _ s')).
-    { intros e0 H0. destruct (end_session _ _) as [sc'|e1]; injection H0 as <- <- <-.
-      + split; [split; [now apply Inv_set_sch | exact Hd1] |]. eapply extends_trans; [exact Hx'|]. apply records_extends; reflexivity.
-      + split; [split; auto | exact Hx']. }
-    assert (Hdone : forall x,
-              (if Nat.eqb n 0 && c_saving (cfg _ _ _ (live _ _ _ s1))
-               then match save _ _ _ (live _ _ _ s1) with
-                    | Some d => inl (mkSt _ _ _ (live _ _ _ s1) (Some d)) | None => inr ExOther end
-               else inl s1) = x ->
-              match x with
-              | inr e0 =>
-                match end_session _ (sch _ _ _ (live _ _ _ s1)) with
-                | inr e' => (s1, Some e', [])
-                | inl sc' => (mkSt _ _ _ (set_sch _ _ _ (live _ _ _ s1) sc') (disk _ _ _ s1), Some e0, [])
-                end
-              | inl s'' =>
-                match end_session _ (sch _ _ _ (live _ _ _ s'')) with
-                | inr e1 => (s'', Some e1, [])
-                | inl sc' => let c' := set_sch _ _ _ (live _ _ _ s'') sc' in
-                             (mkSt _ _ _ c' (disk _ _ _ s''), None,
-                              sort_pairs _ _ loss_leb (combine (params _ _ _ c') (losses _ _ _ c')))
-                end
-              end = (s', e, r) -> InvS E0 s' /\ extends (live _ _ _ s) (live _ _ _ s')).
-    { intros x Hxx H0. destruct (Hck _ Hxx) as [[e0 ->]|(s2 & -> & Hlive & Hdisk)].
-      - eapply Hraise; eauto.
-      - cbv zeta in H0. destruct (end_session _ (sch _ _ _ (live _ _ _ s2))) as [sc'|e1]; injection H0 as <- <- <-; cbn [live disk]; rewrite ?Hlive.
-        + split; [split; [now apply Inv_set_sch | exact Hdisk] |]. eapply extends_trans; [exact Hx'|]. apply records_extends; reflexivity.
-        + split; [split; [rewrite Hlive; exact Hl1 | exact Hdisk] | exact Hx']. }
     destruct o1.
-    - eapply Hdone; [reflexivity | exact H].
-    - eapply Hdone; [reflexivity | exact H].
-    - eapply Hraise; eauto.
+    - destruct (end_session _ _) as [sc'|e1]; injection H as <- <- <-.
+      + split; [split; [now apply Inv_set_sch | exact Hd1] |]. eapply extends_trans; [exact Hx'|]. apply records_extends; reflexivity.
+      + split; [split; auto | exact Hx'].
+    - destruct (end_session _ _) as [sc'|e1]; injection H as <- <- <-.
+      + split; [split; [now apply Inv_set_sch | exact Hd1] |]. eapply extends_trans; [exact Hx'|]. apply records_extends; reflexivity.
+      + split; [split; auto | exact Hx'].
+    - destruct (end_session _ _) as [sc'|e1]; injection H as <- <- <-.
+      + split; [split; [now apply Inv_set_sch | exact Hd1] |]. eapply extends_trans; [exact Hx'|]. apply records_extends; reflexivity.
+      + split; [split; auto | exact Hx'].
   Qed.
 
   Lemma step_inv E0 s o s' e r : InvS E0 s -> step s o = (s', e, r) -> InvS E0 s'.
